@@ -87,6 +87,7 @@ func c18Run(c c18Case) (*eng.Fail, int) {
 	}
 	mdl := map[string]regv{}
 	memMdl := memModel{}
+	memMdl2 := memModel{} // memory space "a"
 	trans := 0
 	for i, op := range c.Ops {
 		v := vals[op.Val]
@@ -133,8 +134,12 @@ func c18Run(c c18Case) (*eng.Fail, int) {
 			}
 		case "mem":
 			a := addrs[op.Addr]
+			mkey := expr.Key("mem")
+			if op.Key != "" {
+				mkey = expr.Key(op.Key) // a memory space called like a register
+			}
 			var ok bool
-			p, stack := eng.Catch(func() { ok = s.Apply(expr.NewMemStore(v, "mem", a, w)) })
+			p, stack := eng.Catch(func() { ok = s.Apply(expr.NewMemStore(v, mkey, a, w)) })
 			trans++
 			if p != nil {
 				return &eng.Fail{Sig: "Apply(MemStore) panic " + eng.PanicSite(stack), What: fmt.Sprintf("%s panics: %v", desc, p), Case: c}, trans
@@ -147,6 +152,8 @@ func c18Run(c c18Case) (*eng.Fail, int) {
 				if after := c18Snapshot(s); after != before {
 					return &eng.Fail{Sig: "Apply(MemStore) refused-but-changed", What: fmt.Sprintf("%s refused but state changed: %s -> %s", desc, before, after), Case: c}, trans
 				}
+			} else if op.Key != "" {
+				memMdl2.store(int(ca)-0x1c, v, op.W)
 			} else {
 				memMdl.store(int(ca)-0x1c, v, op.W)
 			}
@@ -155,8 +162,8 @@ func c18Run(c c18Case) (*eng.Fail, int) {
 		if c.ReadsAtEndOnly && i < len(c.Ops)-1 {
 			continue
 		}
-		for _, k := range []string{"a", "b", "c"} {
-			for _, rw := range []expr.Width{1, 2, 3, 4, 8, 16, 33} {
+		for _, k := range []string{"a", "b", "c", "mem"} {
+			for _, rw := range []expr.Width{1, 2, 3, 4, 8, 16, 33, 255} {
 				var got expr.Expr
 				var ok bool
 				p, stack := eng.Catch(func() { got, ok = s.Regs.Load(expr.Key(k), rw) })
@@ -186,6 +193,15 @@ func c18Run(c c18Case) (*eng.Fail, int) {
 				}
 			}
 		}
+		if mm, ok := s.Mems["a"]; ok || len(memMdl2) > 0 {
+			if !ok {
+				return &eng.Fail{Sig: "Apply(MemStore) lost", What: "memory write to space \"a\" accepted but no such memory exists", Case: c}, trans
+			}
+			if f := surface("State.Mems", mm, memMdl2, model.Addr(0x1c), memCase{MaxA: 12, MaxW: 4}, 0); f != nil {
+				f.Case = c
+				return f, trans
+			}
+		}
 		if mm, ok := s.Mems["mem"]; ok || len(memMdl) > 0 {
 			if !ok {
 				return &eng.Fail{Sig: "Apply(MemStore) lost", What: "memory write accepted but no memory exists", Case: c}, trans
@@ -210,7 +226,7 @@ func c18Run(c c18Case) (*eng.Fail, int) {
 func init() {
 	checks["C18"] = eng.Check{
 		Hist: true,
-		Rule: "every history of <=3 operations over {Apply(RegStore) and RegMap.Store to keys a,b with 6 value shapes (constants of width 1,2,4, register load, memory load, binary) at write widths 1,2,4 (and 8,16,40 for three shapes); register copies (the expression read from one register at width 1,2,4 written to the other, so that both hold one object); Apply(MemStore) with constant / foldable / non-constant addresses (6 shapes) at widths 1,2,4} on a fresh real State (quick: <=2 operations over this alphabet and all 3-operation histories over the register-only sub-alphabet of 30 operations); after every operation (and, in a second run of each history, only after the last one) Load(k,w) for k in {a,b,c}, w in {1,2,3,4,8,16,33} compared (presence, width, value under 5 valuations) with the last written value adjusted to its write width then to the read width; refused memory writes must leave the full state snapshot unchanged; accepted ones are compared byte-wise; the values handed in are digest-checked after the history. Non-trivial = history with >=2 operations.",
+		Rule: "every history of <=3 operations over {Apply(RegStore) and RegMap.Store to keys a,b with 6 value shapes (constants of width 1,2,4, register load, memory load, binary) at write widths 1,2,4 (and 8,16,40,255 for three shapes); register copies (the expression read from one register at width 1,2,4 written to the other, so that both hold one object); Apply(MemStore) with constant / foldable / non-constant addresses (6 shapes) at widths 1,2,4; a register called like the memory space and a memory space called like a register} on a fresh real State (quick: <=2 operations over this alphabet and all 3-operation histories over the register-only sub-alphabet of 30 operations); after every operation (and, in a second run of each history, only after the last one) Load(k,w) for k in {a,b,c}, w in {1,2,3,4,8,16,33,255} compared (presence, width, value under 5 valuations) with the last written value adjusted to its write width then to the read width; refused memory writes must leave the full state snapshot unchanged; accepted ones are compared byte-wise; the values handed in are digest-checked after the history. Non-trivial = history with >=2 operations.",
 		Run: func(r *eng.Run) {
 			var alpha []c18Op
 			for _, k := range []string{"a", "b"} {
@@ -223,7 +239,7 @@ func init() {
 					}
 				}
 			}
-			for _, w := range []int{8, 16, 40} {
+			for _, w := range []int{8, 16, 40, 255} {
 				for _, v := range []int{2, 4, 5} {
 					alpha = append(alpha, c18Op{Kind: "reg", Key: "a", Val: v, W: w})
 				}
@@ -241,6 +257,10 @@ func init() {
 				copies = append(copies, c18Op{Kind: "copy", Key: "b", Val: 0, W: w}, c18Op{Kind: "copy", Key: "a", Val: 1, W: w})
 			}
 			alpha = append(alpha, copies...)
+			// name spaces: a register called "mem" and a memory space called "a"
+			for _, w := range []int{1, 4} {
+				alpha = append(alpha, c18Op{Kind: "reg", Key: "mem", Val: 1, W: w}, c18Op{Kind: "mem", Key: "a", Val: 1, W: w, Addr: 0}, c18Op{Kind: "mem", Key: "a", Val: 3, W: w, Addr: 1})
+			}
 			depth := 2
 			if !r.Quick() {
 				depth = 3
